@@ -16,6 +16,7 @@ import (
 	"github.com/Oudwins/zog/i18n/en"
 	"github.com/Oudwins/zog/i18n/es"
 	p "github.com/Oudwins/zog/internals"
+	"github.com/Oudwins/zog/parsers/zjson"
 	"pgregory.net/rapid"
 
 	"verifharness/hh"
@@ -36,9 +37,11 @@ type c07Case struct {
 	Calls []model.Case `json:"calls"`
 	// Same[i] >= 0: call i uses the schema OBJECT of call Same[i] (its Root is a copy of that call's Root), with a
 	// destination type whose fields are rotated by Rot[i]: one schema value serving several Go types across calls
-	Same []int   `json:"same,omitempty"`
-	Rot  []int   `json:"rot,omitempty"`
-	Ops  []c07Op `json:"ops"`
+	Same []int `json:"same,omitempty"`
+	Rot  []int `json:"rot,omitempty"`
+	// JSON[i] != "": call i hands this document over through zjson.Decode (struct roots, parse) instead of Input
+	JSON []string `json:"json,omitempty"`
+	Ops  []c07Op  `json:"ops"`
 }
 
 var addrRe = regexp.MustCompile(`0xc[0-9a-f]{6,}`)
@@ -106,6 +109,7 @@ func observe(res *model.Result) string {
 }
 
 type built struct {
+	json    string
 	schema  z.ZogSchema
 	typ     reflect.Type
 	baseTyp reflect.Type
@@ -118,6 +122,8 @@ func (b *built) run() *model.Result {
 	var in any
 	if b.c.Exec.Mode == "validate" {
 		model.SetFromVal(dest.Elem(), b.c.Input)
+	} else if b.json != "" {
+		in = zjson.Decode(strings.NewReader(b.json))
 	} else {
 		in = b.c.Input.Go()
 	}
@@ -206,7 +212,11 @@ func propC07(c c07Case) hh.Verdict {
 		// expected result: the same call on pristine pools with a schema object that was never used before
 		fenv := &model.Env{WatchKeys: watchKeys}
 		fs, ft := model.Build(cs.Root, fenv)
-		fresh := &built{schema: fs, typ: model.RetaggedStruct(ft, nil, rot), env: fenv, c: cs}
+		js := ""
+		if i < len(c.JSON) {
+			js = c.JSON[i]
+		}
+		fresh := &built{schema: fs, typ: model.RetaggedStruct(ft, nil, rot), env: fenv, c: cs, json: js}
 		p.ClearPools()
 		res := fresh.run()
 		if res.Panic != nil {
@@ -216,12 +226,12 @@ func propC07(c c07Case) hh.Verdict {
 		// the long-lived object used during the history
 		if i < len(c.Same) && c.Same[i] >= 0 && c.Same[i] < i {
 			j := c.Same[i]
-			calls[i] = &built{schema: calls[j].schema, typ: model.RetaggedStruct(calls[j].baseTyp, nil, rot), baseTyp: calls[j].baseTyp, env: calls[j].env, c: cs}
+			calls[i] = &built{schema: calls[j].schema, typ: model.RetaggedStruct(calls[j].baseTyp, nil, rot), baseTyp: calls[j].baseTyp, env: calls[j].env, c: cs, json: js}
 			shared = true
 		} else {
 			env := &model.Env{WatchKeys: watchKeys}
 			s, t := model.Build(cs.Root, env)
-			calls[i] = &built{schema: s, typ: model.RetaggedStruct(t, nil, rot), baseTyp: t, env: env, c: cs}
+			calls[i] = &built{schema: s, typ: model.RetaggedStruct(t, nil, rot), baseTyp: t, env: env, c: cs, json: js}
 		}
 	}
 	p.ClearPools()
@@ -322,6 +332,19 @@ func genC07(rt *rapid.T, thorough bool) c07Case {
 		c.Calls = append(c.Calls, cs)
 		c.Same = append(c.Same, -1)
 		c.Rot = append(c.Rot, 0)
+		js := ""
+		if mode == "parse" && cs.Root.Kind == model.KStruct && rapid.IntRange(0, 3).Draw(rt, "json") == 0 {
+			var sb strings.Builder
+			if err := model.JSONOf(cs.Root, cs.Input, &sb); err == nil && rapid.Bool().Draw(rt, "jvalid") {
+				js = sb.String()
+			} else {
+				js = rapid.SampledFrom([]string{"null", "[1]", `{"a":`, `"s"`, ""}).Draw(rt, "jbad")
+				if js == "" {
+					js = " "
+				}
+			}
+		}
+		c.JSON = append(c.JSON, js)
 		// sometimes a second call that reuses this schema object with another destination type and other data
 		if cs.Root.Kind == model.KStruct && len(c.Calls) < ncalls && rapid.IntRange(0, 2).Draw(rt, "reuse") == 0 {
 			cfg2 := cfg
@@ -337,6 +360,7 @@ func genC07(rt *rapid.T, thorough bool) c07Case {
 				twin.Input = typed
 			}
 			c.Calls = append(c.Calls, twin)
+			c.JSON = append(c.JSON, "")
 			c.Same = append(c.Same, len(c.Calls)-2)
 			c.Rot = append(c.Rot, rapid.IntRange(1, 3).Draw(rt, "rot"))
 			i++
